@@ -88,7 +88,9 @@ def nostd_gate():
 
 def run_property(prop, tier, seed):
     t0 = time.time()
-    caps = checks.TIERS[tier]
+    caps = dict(checks.TIERS[tier])
+    for k_, v_ in checks.PROP_CAPS.get(prop, {}).items():
+        caps[k_] = max(caps[k_], v_)
     obs = checks.obligations(prop, tier)
     only = os.environ.get('VERIF_ONLY')   # debugging aid: regex over obligation names
     if only:
